@@ -26,11 +26,6 @@ def add(id, props, what, match, witness, status="open", **kw):
 
 PRIM_ALL = ["C01", "C02", "C04", "C05", "C07", "C09", "C15"]
 
-add("KF-order-A-fortran-layout", ["C01", "C02", "C09"],
-    "np.reshape / np.ravel / ndarray.flatten with order='A' on an argument that is Fortran-contiguous (not C-contiguous): NumPy reads the argument in Fortran order, but the VJP reshapes the (C-ordered) cotangent back with order='A' (= C order) and the JVP applies order='A' to the tangent's own layout; the derivative entries land at permuted positions. A repair needs the argument's layout inside both rules (custom JVP instead of 'same')",
-    {"prim": ["reshape", "ravel", "flatten"], "layout": "F", "kw": {"order": {"__re__": "str:[Aa]"}}, "symptom": ["wrong_value", "not_adjoint", "modes_disagree"]},
-    case("ravel", [A(2, 3)], {"order": "A"}, layout="F"))
-
 # C06
 from vf.common import enc  # noqa
 
@@ -88,6 +83,7 @@ fixed("FX-slogdet-complex-sign", ["C09"], "9b5e67c", "np.linalg.slogdet of a com
 fixed("FX-cholesky-complex", ["C09"], "534c93e", "np.linalg.cholesky of a complex Hermitian matrix: the rule symmetrised/solved with plain transposes (no conjugate) and was wrong for complex input", case("cholesky", [SPD(3, True)], ns="linalg", domain="herm"))
 fixed("FX-diagonal-nonsquare", ["C01", "C04", "C05", "C07", "C09"], "3f41113", "np.diagonal(x, 0, -1, -2) of an array whose last two dimensions differ: make_diagonal built a square block and the cotangent had the wrong shape", case("diagonal", [A(2, 4)], {"axis1": -1, "axis2": -2}))
 fixed("FX-kron-nd", ["C01", "C04", "C07", "C09", "C15"], "6685ddf", "np.kron with an operand of 3 or more dimensions: grad_kron reshaped as if both operands were at most 2-D and silently returned a wrong cotangent", case("kron", [A(2, 2, 2), A(2, 2, 2)], argnum=0))
+fixed("FX-order-A-fortran-layout", ["C01", "C02", "C09"], "8699557", "np.reshape / np.ravel / ndarray.flatten with order='A' on a Fortran-contiguous argument: VJP and JVP applied 'A' to the cotangent's / tangent's own layout and the derivative entries landed at permuted positions", case("ravel", [A(2, 3)], {"order": "A"}, layout="F"))
 fixed("FX-where-jvp-broadcast", ["C05", "C02"], "423a953", "forward-mode np.where returned a tangent with the branch's shape/kind instead of the output's", case("where", [cc, A(3), A(2, 2, 3)], argnum=1), witness_mode="fwd")
 
 out = {"_comment": "Known findings: genuine defects of HIPS/autograd that are recorded rather than repaired (status open) and defects repaired by a 'fix:' commit (status fixed; fixed entries suppress nothing - their witnesses are re-run on every check and a failing one is an ordinary VIOLATION). `match` is a conjunction over fields of the case signature (lists = any of; {__re__}: regex; {__has__}: list membership); never a seed, hash or random value. Read-only at run time.", "findings": F}
